@@ -582,3 +582,13 @@ def r9(ctx: Ctx) -> None:
         ok = len(acc) == 1 and len(guard) == 1 and len(init) == 1 and guard[0][2][0] == acc[0] and acc[0][2] == init[0][1]
     if not ok:
         ctx.report(fe.where, "evalexpr", "evalexpr is not 'expr.c + sum(t.c for terms whose literal has value 1)'", lineno=fe.node.lineno)
+
+
+@rule("C07", "R10.expression-normal-form", "SHARED(C16)",
+      "the inequalities that are encoded are built by the Expr arithmetic: its normal form (no zero coefficient, every stored "
+      "coefficient positive after every write, terms merged by polarity) is what makes the bound of Ineq and the base cases of both "
+      "diagram constructions right -- the C16 laws of Expr.__add__ / __mul__ evaluated for the encoding layer", floor=5)
+def shared_expr(ctx: Ctx) -> None:
+    from . import C16 as _c16
+    from .common import support
+    support(ctx, [_c16.r2, _c16.r3], {"Expr.__add__", "Expr.__mul__"})
